@@ -25,8 +25,8 @@ def next_id_processor(u):
     f.ensures.append(("C05.same", "res.is_some() && res.unwrap().1 as int == n_missing_all(entries@)"))
     f.loop_spec(0, [
         "0 <= it.index@ <= entries@.len()", "it.index@ <= entries.len()",
-        "max_file_ref as int == max_ref(entries@, it.index@)",
-        "num_missing_refs as int == n_missing(entries@, it.index@)",
+        ("C01.filemax", "max_file_ref as int == max_ref(entries@, it.index@)"),
+        ("C05.same,C01.filemax", "num_missing_refs as int == n_missing(entries@, it.index@)"),
         "num_missing_refs <= it.index@",
     ], iter_name="it", kind="for")
     f.at_start(" proof { lemma_n_missing_bounds(entries@, entries@.len() as int); lemma_max_ref_bounds(entries@, entries@.len() as int); }")
@@ -42,12 +42,12 @@ def next_id_processor(u):
     f.ensures.append(("C17.total", "res.is_some()"))
     f.loop_spec(0, [
         "0 <= it.index@ <= map_results@.len()",
-        "ref_id_result as int == max_id(map_results@.take(it.index@))",
-        "missing_refs_result as int == sum_missing(map_results@.take(it.index@))",
+        ("C01.next", "ref_id_result as int == max_id(map_results@.take(it.index@))"),
+        ("C05.same,C01.next", "missing_refs_result as int == sum_missing(map_results@.take(it.index@))"),
         "sum_missing(map_results@) <= usize::MAX",
     ], iter_name="it", kind="for")
-    f.before_stmt("ref_id_result = cmp::max(", "proof { lemma_sum_missing_mono(map_results@, it.index@ + 1); "
-                  "assert(map_results@.take(it.index@ + 1).drop_last() == map_results@.take(it.index@)); }\n            ")
+    f.insert_at(f.loop_open_brace(f.loops()[0][2]) + 1, " proof { lemma_sum_missing_mono(map_results@, it.index@ + 1); "
+                "assert(map_results@.take(it.index@ + 1).drop_last() == map_results@.take(it.index@)); }")
     f.before_stmt("if ref_id_result == 0", "proof { assert(map_results@.take(map_results@.len() as int) == map_results@); lemma_max_id_bounds(map_results@); }\n        ")
     u.raw("}\n}\n")
 
@@ -65,10 +65,10 @@ def count_processor(u):
                       ".push(Event { tag: 6, strs: seq![path@], nums: seq![n_missing_all(entries@)] })"))
     rules.r4_for_to_while(f, 0, [
         "0 <= __i <= entries@.len()", "entries@.len() <= u32::MAX",
-        "missing_ref_count as int == n_missing(entries@, __i as int)",
+        ("C05.same", "missing_ref_count as int == n_missing(entries@, __i as int)"),
         "missing_ref_count <= __i",
         "w.fs == old(w).fs && same_but_fs(World { log: w.log, ..*old(w) }, *w)",
-        "w.log == old(w).log + report_lines(path@, entries@, __i as int)",
+        ("C05.where", "w.log == old(w).log + report_lines(path@, entries@, __i as int)"),
     ])
     f.at_start(" proof { lemma_n_missing_bounds(entries@, entries@.len() as int); assert(old(w).log + report_lines(path@, entries@, 0) =~= old(w).log); }")
     f.before_stmt("let path_copy = path.to_string();", "proof { lemma_report_step(old(w).log, path@, entries@, __i as int); }\n                ", nth=0)
@@ -82,12 +82,12 @@ def count_processor(u):
     f.ensures.append(("C04.frame", "final(w).fs == old(w).fs && same_but_fs(World { log: final(w).log, ..*old(w) }, *final(w))"))
     f.loop_spec(0, [
         "0 <= it.index@ <= map_results@.len()",
-        "reduce_result as int == sum_u32(map_results@.take(it.index@))",
+        ("C05.verdict", "reduce_result as int == sum_u32(map_results@.take(it.index@))"),
         "sum_u32(map_results@) <= u32::MAX",
         "*w == *old(w)",
     ], iter_name="it", kind="for")
-    f.before_stmt("reduce_result += *map_result;", "proof { lemma_sum_u32_mono(map_results@, it.index@ + 1); "
-                  "assert(map_results@.take(it.index@ + 1).drop_last() == map_results@.take(it.index@)); }\n            ")
+    f.insert_at(f.loop_open_brace(f.loops()[0][2]) + 1, " proof { lemma_sum_u32_mono(map_results@, it.index@ + 1); "
+                "assert(map_results@.take(it.index@ + 1).drop_last() == map_results@.take(it.index@)); }")
     f.insert_at(f.find_one("info!(", nth=0)[0], "proof { assert(map_results@.take(map_results@.len() as int) == map_results@); }\n        ")
     u.raw("}\n}\n")
 
@@ -204,7 +204,8 @@ pub fn counter_update_fn_%d(%s: u32) -> (r: Option<u32>)
     f.after_stmt("let reference_id =", " proof { let ghost ids0 = ids; ids = ids.push(reference_id as int);"
                  " lemma_out_ids_prefix(c, entries@, ids0, ids, it.index@); }")
     # the complete new content is declared before the file is moved into place
-    f.before_stmt("async_std::fs::rename(", "proof { lemma_ids_consec(ids, first, n_missing_all(entries@));"
+    n_ren = len(f.find_all("async_std::fs::rename("))
+    f.before_stmt("async_std::fs::rename(", nth=n_ren - 1 if n_ren else None, text="proof { lemma_ids_consec(ids, first, n_missing_all(entries@));"
                   " assert(is_token_insertion(c, entries@, edited(c, entries@, ids)));"
                   " declare_intended(w, path@, scratch_file.file.accepted()); }\n        ")
     # ---- reduce -------------------------------------------------------------------------------------
@@ -222,8 +223,8 @@ pub fn counter_update_fn_%d(%s: u32) -> (r: Option<u32>)
         ("C05.count", "insert_count as int == sum_inserted(map_results@.take(it.index@))"),
         ("C08.fail", "reduce_failure == any_failure(map_results@.take(it.index@))"),
     ], iter_name="it", kind="for")
-    f.before_stmt("insert_count += map_result.num_inserted_references;", "proof { lemma_sum_inserted_mono(map_results@, it.index@ + 1); "
-                  "assert(map_results@.take(it.index@ + 1).drop_last() == map_results@.take(it.index@)); }\n            ")
+    f.insert_at(f.loop_open_brace(f.loops()[0][2]) + 1, " proof { lemma_sum_inserted_mono(map_results@, it.index@ + 1); "
+                "assert(map_results@.take(it.index@ + 1).drop_last() == map_results@.take(it.index@)); }")
     f.before_stmt("Some(InsertReferencesResult {", "proof { assert(map_results@.take(map_results@.len() as int) == map_results@); }\n        ", nth=-1) if False else None
     ls = f.find_all("Some(InsertReferencesResult {")
     f.insert_at(ls[-1][0], "proof { assert(map_results@.take(map_results@.len() as int) == map_results@); }\n        ")
